@@ -3,6 +3,7 @@ CONSTANTS
   Count = 0
   Kind = "window"
   MaxRolls = 2
+  MaxWipes = 0
 INIT HInit
 NEXT HNext
 INVARIANTS WindowLaw ActiveGone OutsideUntouched RemoveOnly NoDup Emit
